@@ -237,7 +237,7 @@ func RunCheck(id, tier string) int {
 	ev := &mc.Evidence{PropertyID: id, Tier: tier, Seed: seed, Level: "model_checking", Coverage: part, WallS: time.Since(t0).Seconds(), Violations: nviol,
 		Assumptions: []string{"the reference models (refwire, refmeta, refhttp, refstream) are correct renderings of the documented formats", "bounded alphabets/lengths as listed per family"}}
 	// hybrid checks: merge into the evidence the engine part has just written
-	if b, err := os.ReadFile(verifDir() + "/evidence/" + id + ".json"); err == nil {
+	if b, err := os.ReadFile(mc.EvidenceDir() + "/" + id + ".json"); err == nil {
 		var prev mc.Evidence
 		if json.Unmarshal(b, &prev) == nil && prev.PropertyID == id && prev.Tier == tier && time.Since(t0) < 6*time.Hour {
 			cov := prev.Coverage
